@@ -17,6 +17,8 @@ LEVEL_TEXT = ('Static membership-fact and lockstep rules on the three Sampler fu
 
 
 def run(ctx):
+    from ..shape import rule_N4
+    rule_N4(ctx)      # per-member membership tests are reduced over the members
     from ..persist import rule_P12k
     rule_P12k(ctx)      # ordered members are never rebuilt from the (alphabetical) group names
     from ..pathrules import rule_T2_publish
